@@ -36,10 +36,12 @@ func (f Fate) String() string {
 
 // DnsPath describes what the network between DNS client and server does.
 type DnsPath struct {
-	Fate   func(exchange int) Fate                // nil: always delivered (exchange numbers start at 1)
-	Query  func(exchange int, q *dns.Msg) bool    // mutate the query on its way; false = dropped
-	Answer func(exchange int, q, a *dns.Msg) bool // mutate / veto the answer; false = dropped
-	MaxAns int                                    // >0: answers whose packed size exceeds this are dropped
+	Fate      func(exchange int) Fate                // nil: always delivered (exchange numbers start at 1)
+	Query     func(exchange int, q *dns.Msg) bool    // mutate the query on its way; false = dropped
+	Answer    func(exchange int, q, a *dns.Msg) bool // mutate / veto the answer; false = dropped
+	MaxAns    int                                    // >0: answers whose packed size exceeds this are dropped
+	Truncate  bool                                   // with MaxAns: oversize answers come back empty with the TC bit instead of being dropped
+	QueryWire func(exchange int, wire []byte) []byte // rewrite the packed query (nil result = dropped)
 }
 
 const DnsDomain = "t.example.org"
@@ -167,6 +169,11 @@ func (d *DgramConn) push(b []byte) {
 
 // serve hands one packed query to the server handler; returns the packed answer or nil.
 func (d *DgramConn) serve(exch int, packed []byte) []byte {
+	if d.path != nil && d.path.QueryWire != nil {
+		if packed = d.path.QueryWire(exch, append([]byte{}, packed...)); packed == nil {
+			return nil
+		}
+	}
 	q := new(dns.Msg)
 	if err := q.Unpack(packed); err != nil {
 		return nil
@@ -202,7 +209,17 @@ func (d *DgramConn) serve(exch int, packed []byte) []byte {
 	}
 	if d.path != nil {
 		if d.path.MaxAns > 0 && len(out) > d.path.MaxAns {
-			return nil
+			if !d.path.Truncate {
+				return nil
+			}
+			tc := new(dns.Msg)
+			tc.SetReply(q)
+			tc.Truncated = true
+			out, err = tc.Pack()
+			if err != nil {
+				return nil
+			}
+			return out
 		}
 		if d.path.Answer != nil {
 			if !d.path.Answer(exch, q, a) {
